@@ -4,7 +4,7 @@ own reference constants, evaluated by TLC in 104-bit fixed point on the exact re
 root, cross-multiplication instead of division, series only for sine/cosine). MC_ColourMath checks the reference
 against itself (derived matrices, joins, known exact points accepted, perturbed points rejected). The harness runs
 every edge on lattices, threshold-straddling points and random points for f32 and f64; TraceMath.tla judges."""
-import json, random
+import json, random, itertools
 from common import *
 from colours import *
 
@@ -12,7 +12,21 @@ EDGES = [("linsrgb", "xyz"), ("xyz", "linsrgb"), ("xyz", "lab"), ("lab", "xyz"),
          ("yxy", "xyz"), ("xyz", "oklab"), ("oklab", "xyz"), ("linsrgb", "oklab"), ("oklab", "linsrgb"), ("lab", "lch"), ("lch", "lab"),
          ("luv", "lchuv"), ("lchuv", "luv"), ("oklab", "oklch"), ("oklch", "oklab"), ("srgb", "hsv"), ("hsv", "srgb"), ("srgb", "hsl"),
          ("hsl", "srgb"), ("hsv", "hwb"), ("hwb", "hsv"), ("okhsv", "okhwb"), ("okhwb", "okhsv"), ("hsv", "hsl"), ("hsl", "hsv"),
-         ("xyz", "linluma"), ("linluma", "xyz"), ("xyz", "lmsvk"), ("lmsvk", "xyz"), ("xyz", "lmsbfd"), ("lmsbfd", "xyz")]
+         ("xyz", "linluma"), ("linluma", "xyz"), ("xyz", "lmsvk"), ("lmsvk", "xyz"), ("xyz", "lmsbfd"), ("lmsbfd", "xyz"),
+         ("lchuv", "hsluv"), ("hsluv", "lchuv"),
+         ("okhsv", "oklab"), ("oklab", "okhsv"), ("okhsl", "oklab"), ("oklab", "okhsl")]
+OK_CYL = {("okhsv", "oklab"), ("oklab", "okhsv"), ("okhsl", "oklab"), ("oklab", "okhsl")}
+
+
+def oklab_of_linsrgb(r, g, b):
+    """Ottosson's linear sRGB -> Oklab, used only to GENERATE in-gamut Oklab inputs"""
+    l = 0.4122214708 * r + 0.5363325363 * g + 0.0514459929 * b
+    m = 0.2119034982 * r + 0.6806995451 * g + 0.1073969566 * b
+    s = 0.0883024619 * r + 0.2817188376 * g + 0.6299787005 * b
+    l_, m_, s_ = l ** (1 / 3), m ** (1 / 3), s ** (1 / 3)
+    return (0.2104542553 * l_ + 0.7936177850 * m_ - 0.0040720468 * s_,
+            1.9779984951 * l_ - 2.4285922050 * m_ + 0.4505937099 * s_,
+            0.0259040371 * l_ + 0.7827717662 * m_ - 0.8086757660 * s_)
 WHITE = (0.95047, 1.0, 1.08883)
 LAB_EPS = 216.0 / 24389.0
 
@@ -50,11 +64,35 @@ def special_points(a):
     return [tuple(float(v) for v in p) for p in pts]
 
 
-def gen(ctx, path):
+def gen(ctx, path, path_ok):
+    """two command files: the cheap relations, and the Okhsv / Okhsl edges whose reference (a transcription of the whole
+    published procedure) costs TLC about a second per event"""
     rnd = random.Random(ctx.seed)
     c = Cmds(path)
+    cok = Cmds(path_ok)
     nr, nl = (30, 20) if ctx.quick else (500, 200)
     for (a, b) in EDGES:
+        if (a, b) in OK_CYL or "hsluv" in (a, b):
+            n1, n2 = (10, 8) if ctx.quick else (120, 60)
+            lat = lattice_in(a, [0.0, 77.0, 180.0, 301.5])
+            pts = random_in(a, rnd, n1) + rnd.sample(lat, min(n2, len(lat)))
+            if "hsluv" in (a, b):     # both sides of the join of the bounds' sub2 at L* = 8, hues next to the gamut's corners
+                k = 0 if a == "lchuv" else 2
+                for L in (7.99, 8.0, 8.01, 50.0, 93.0):
+                    for h in (12.18, 85.87, 127.72, 192.18, 265.87, 307.72):
+                        p = [h, 60.0, L] if a == "hsluv" else [L, 30.0, h]
+                        pts.append(tuple(p))
+                pts = pts if not ctx.quick else pts[:n1 + n2] + rnd.sample(pts[n1 + n2:], 12)
+            elif a == "oklab":      # Oklab colours inside the sRGB gamut: interior, faces, near the primaries
+                cube = [tuple(x) for x in itertools.product([0.0, 0.02, 0.5, 1.0], repeat=3) if any(x)]
+                rgbs = [tuple(rnd.random() for _ in range(3)) for _ in range(2 * n1)] + (rnd.sample(cube, 16) if ctx.quick else cube)
+                pts = pts[:n1] + [oklab_of_linsrgb(*x) for x in rgbs]
+            else:
+                hs = (29.23, 142.5, 264.05) if ctx.quick else (29.23, 109.77, 142.5, 194.77, 264.05, 328.36)
+                pts += [(h, s_, v) for h in hs for (s_, v) in ((1.0, 1.0), (0.999, 0.999), (0.5, 1.0), (1.0, 0.5), (0.79999, 0.6), (0.8, 0.6), (0.80001, 0.6))]
+            for p in pts:
+                cok.add(**{"from": a, "in": p, "path": [b], "mode": "u"})
+            continue
         lat = lattice_in(a, [0.0, 77.0, 180.0, 301.5])
         pts = random_in(a, rnd, nr) + rnd.sample(lat, min(nl, len(lat))) + special_points(a)
         if a in HWB:
@@ -67,19 +105,20 @@ def gen(ctx, path):
     for h in hues:
         for l in ([0.15, 0.5, 0.8, 0.97] if ctx.quick else [0.02, 0.1, 0.2, 0.3, 0.4, 0.5, 0.6, 0.7, 0.8, 0.9, 0.97, 0.995]):
             c.add(op="sweep", **{"from": "okhsl", "in": (h, 0.0, l), "path": ["oklab", "oklch"]}, s=[hx(x) for x in sweep])
-    return c.close()
+    return c.close(), cok.close()
 
 
 def run(ctx):
     bins = cargo_build(["conv64", "conv32"])
     tlc_mc(ctx, "MC_ColourMath", tag="colourmath", workers=4, coverage=False)
-    cmds = ctx.p("c02.cmds")
-    n = gen(ctx, cmds)
-    log("C02: %d commands" % n)
-    for b in ("conv64", "conv32"):
-        tp = ctx.p("c02.%s.ndjson" % b)
-        run_bin(bins[b], ["--cmds", cmds, "--out", tp])
-        res = validate_trace(ctx, "TraceMath", tp, stateless=True, chunk_events=max(120, n // 13 + 1), tag="c02." + b, xmx="2g")
+    cmds, cmds_ok = ctx.p("c02.cmds"), ctx.p("c02ok.cmds")
+    n, nok = gen(ctx, cmds, cmds_ok)
+    log("C02: %d commands, %d on the Okhsv / Okhsl edges" % (n, nok))
+    for (b, cf, tag, chunk) in [("conv64", cmds, "c02.conv64", max(120, n // 13 + 1)), ("conv32", cmds, "c02.conv32", max(120, n // 13 + 1)),
+                                ("conv64", cmds_ok, "c02ok.conv64", max(6, nok // 32 + 1)), ("conv32", cmds_ok, "c02ok.conv32", max(6, nok // 32 + 1))]:
+        tp = ctx.p(tag + ".ndjson")
+        run_bin(bins[b], ["--cmds", cf, "--out", tp])
+        res = validate_trace(ctx, "TraceMath", tp, stateless=True, chunk_events=chunk, tag=tag, xmx="2g")
         ctx.cov["traces_validated_against_impl"] += res.events - len(res.rejected)
         add_samples(ctx, tp, n=1, every=997)
         ctx.cov["distinct_nontrivial"] += count_distinct(tp, lambda e: json.dumps([e.get("nodes"), e.get("vals", [e.get("in")])[0]]), lambda e: True)
@@ -100,7 +139,7 @@ def run(ctx):
                   rule="a case is one input colour converted along one hand-written edge; distinct by edge and exact input; every case "
                        "evaluates a defining equation (non-trivial)",
                   explanation="MC_ColourMath: 17 self-checks of the reference (derived sRGB matrix hits the white point and inverts, f(t) "
-                              "continuous at the join, known exact points accepted, perturbed points rejected). 34 directed edges x lattice, "
+                              "continuous at the join, known exact points accepted, perturbed points rejected). 40 directed edges x lattice, "
                               "threshold-straddling and random inputs x f32/f64 are judged by TLC with the relations of ColourMath.tla in "
                               "104-bit fixed point.",
                   trusted=["reference constants and formulas written in spec/ColourMath.tla with their citations",
